@@ -10,31 +10,31 @@ import (
 )
 
 func init() {
-	register(&Rule{ID: "C05.R1", Min: 40,
+	register(&Rule{ID: "C05.R1", Min: 78,
 		Text: "RAW: under the assumption that a destination parameter and an operand parameter are the same object, no path writes a field through the destination and later reads that field through the operand (copies d.F = s.F are the identity under aliasing and do not count)",
 		Run:  ruleRAW})
-	register(&Rule{ID: "C05.R2", Min: 60,
+	register(&Rule{ID: "C05.R2", Min: 36,
 		Text: "BigInt wrappers: every inner(&tmpN) in a function uses a distinct temporary, and the math/big methods that compare pointers (Mod, DivMod: y==z; GCD: y==b) receive the aliased view through innerOrAlias/innerOrNilOrAlias",
 		Run:  ruleTmpDistinct})
 	register(&Rule{ID: "C05.R3", Min: 1,
 		Text: "functions documented as not alias-safe are internal and every caller passes a fresh destination or is guarded by a != test",
 		Run:  ruleNotAliasSafeCallers})
-	register(&Rule{ID: "C06.R1", Min: 30,
+	register(&Rule{ID: "C06.R1", Min: 34,
 		Text: "WRITE-ONLY-UNTIL: no field of a Decimal destination is read before this call has assigned it (the result is independent of the destination's previous contents)",
 		Run:  ruleWriteOnlyUntil})
-	register(&Rule{ID: "C06.R2", Min: 30,
+	register(&Rule{ID: "C06.R2", Min: 34,
 		Text: "DEF-ASSIGN: on every non-error return on which a Decimal destination has been written at all, Form, Negative, Exponent and Coeff are all definitely assigned",
 		Run:  ruleDefAssign})
-	register(&Rule{ID: "C06.R3", Min: 100,
+	register(&Rule{ID: "C06.R3", Min: 115,
 		Text: "NO-FLOW: no function writes (directly, through a derived pointer, or by handing it to a writer) through a parameter whose role is operand",
 		Run:  ruleOperandsReadOnly})
-	register(&Rule{ID: "C06.R4", Min: 40,
+	register(&Rule{ID: "C06.R4", Min: 25,
 		Text: "the Context is never written: every store into a Context object targets a function-local or freshly created Context (WithPrecision / new / composite literal)",
 		Run:  ruleContextReadOnly})
-	register(&Rule{ID: "C06.R5", Min: 100,
+	register(&Rule{ID: "C06.R5", Min: 129,
 		Text: "shared tables and constants are init-only: no function reachable from the exported API writes through a pointer rooted at package-level storage (including results of tableExp10, exp10, constWithPrecision.get)",
 		Run:  ruleSharedInitOnly})
-	register(&Rule{ID: "C06.R6", Min: 20,
+	register(&Rule{ID: "C06.R6", Min: 15,
 		Text: "no hidden state: every package-level variable is written only by initialisation code (functions not reachable from the exported API)",
 		Run:  ruleGlobalsCensus})
 }
